@@ -888,6 +888,16 @@ func genAsmTables(repo, out string) {
 		}
 		die("%s: immediate for %s in %s not found", file, reg, text)
 	}
+	// compare immediates of the hand-assembled string kernels (UTF-8 length thresholds, surrogate range,
+	// minimum escape distances), decoded from the instruction bytes of each line
+	for _, fn := range []struct{ lean, text string }{{"aParseStringCmpValidate", "_parse_string_validate_only"}, {"aParseStringCmpCopy", "_parse_string"}} {
+		imms := cmpImmediates(filepath.Join(repo, "parse_string_amd64.s"), fn.text)
+		var vals []*big.Int
+		for _, v := range imms {
+			vals = append(vals, big.NewInt(v))
+		}
+		fmt.Fprintf(&b, "/-- parse_string_amd64.s: TEXT %s, immediates of every `cmp reg, imm` in program order -/\ndef %s : List Nat := %s\n\n", fn.text, fn.lean, strings.Replace(strings.Replace(leanNatList(vals, 32), "#[", "[", 1), "\n  ", " ", -1))
+	}
 	imm("aNewlineByte", "find_newline_delimiters_amd64.s", "__find_newline_delimiters", "BX")
 	imm("aNewlineByte512", "find_newline_delimiters_amd64.s", "__init_newline_delimiters_avx512", "BX")
 	imm("aBackslashByte512", "find_odd_backslash_sequences_amd64.s", "__init_odd_backslash_sequences_avx512", "AX")
@@ -1056,6 +1066,66 @@ func quoteAvx2(b *strings.Builder, path string) {
 }
 
 func lowerFirst(s string) string { return strings.ToLower(s[:1]) + s[1:] }
+
+var dirRe = regexp.MustCompile(`(WORD|LONG|BYTE|QUAD)\s+\$0x([0-9a-fA-F]+)`)
+
+// lineBytes returns the machine-code bytes a line of WORD/LONG/BYTE directives assembles to.
+func lineBytes(line string) []byte {
+	var out []byte
+	for _, m := range dirRe.FindAllStringSubmatch(line, -1) {
+		v, _ := strconv.ParseUint(m[2], 16, 64)
+		n := map[string]int{"BYTE": 1, "WORD": 2, "LONG": 4, "QUAD": 8}[m[1]]
+		for i := 0; i < n; i++ {
+			out = append(out, byte(v>>(8*uint(i))))
+		}
+	}
+	return out
+}
+
+// cmpImmediates decodes `cmp r32/r64, imm8/imm32` (opcodes 83 /7, 81 /7, 3D) from every instruction line of a TEXT.
+func cmpImmediates(path, name string) []int64 {
+	var out []int64
+	in := false
+	for _, l := range asmLines(path) {
+		t := strings.TrimSpace(l)
+		if strings.HasPrefix(t, "TEXT ") {
+			in = strings.HasPrefix(t, "TEXT ·"+name+"(SB)")
+			continue
+		}
+		if !in {
+			continue
+		}
+		code := strings.SplitN(t, "//", 2)[0]
+		b := lineBytes(code)
+		if len(b) == 0 {
+			continue
+		}
+		i := 0
+		if b[0]&0xf0 == 0x40 { // REX prefix
+			i = 1
+		}
+		if i >= len(b) {
+			continue
+		}
+		le32 := func(k int) int64 {
+			return int64(int32(uint32(b[k]) | uint32(b[k+1])<<8 | uint32(b[k+2])<<16 | uint32(b[k+3])<<24))
+		}
+		switch {
+		case b[i] == 0x83 && i+2 < len(b) && b[i+1]&0xf8 == 0xf8: // cmp r/m, imm8 (mod=11, /7)
+			out = append(out, int64(int8(b[i+2])))
+		case b[i] == 0x81 && i+5 < len(b) && b[i+1]&0xf8 == 0xf8: // cmp r/m, imm32
+			out = append(out, le32(i+2))
+		case b[i] == 0x3d && i+4 < len(b): // cmp eax, imm32
+			out = append(out, le32(i+1))
+		case b[i] == 0x80 && i+2 < len(b) && (b[i+1]&0x38 == 0x38): // cmp byte [..], imm8 (last byte is the immediate)
+			out = append(out, int64(b[len(b)-1]))
+		}
+	}
+	if len(out) == 0 {
+		die("%s: no compare immediates found in %s", path, name)
+	}
+	return out
+}
 
 func leanStrList(xs []string) string {
 	var q []string
